@@ -63,6 +63,8 @@ def gen_cases(rng, tier):
         d["script"] = [rng.choice(["ok", "ok", "ok", "A", "B", "A1"]) for _ in range(20)]
         d["exc_tuple"] = rng.random() < 0.4          # exceptions=(KeyError, ExcA) instead of exceptions=ExcA
         d["default_exc"] = len(ev) % 2 == 1          # failover: the list given through set_default_fail_exceptions
+        if kind == "early" and not d.get("default_inner") and len(ev) % 5 == 0:
+            d["inner"] = 0          # an explicit early_ttl of 0 (in every spelling): a stored result is past its early deadline at once, never replaced by the default 0.33 * ttl
         cases.append(d)
     return cases
 
@@ -110,6 +112,8 @@ def run_impl(case):
             if what == "A": raise ExcA()
             if what == "A1": raise ExcA1()
             if what == "B": raise ExcB()
+            if _none_result(case):
+                return None          # a function whose successful result is None (stored like any other result)
             return 1000 + i
 
         async def drain():
@@ -172,6 +176,10 @@ def run_impl(case):
     return vclock.run(go)
 
 
+def _none_result(case):
+    return case["kind"] in ("hit", "early", "soft") and (case["ttl"] + case["hits"] + len(case["events"])) % 7 == 0
+
+
 def _x(what, i):
     return C("XOk", Z(1000 + i)) if what == "ok" else C("XExc", Z(1 if what in ("A", "A1") else 2))
 
@@ -191,6 +199,8 @@ def to_coq(case, obs):
             h.append(C("EvCall", Z(t), _x(what, i)))
             r = C("RVal", Z(res[1])) if res[0] == "val" else C("RRaise", Z(res[1]))
             o.append((r, C({"none": "ENone", "exec": "EExec", "started": "ERefreshStarted"}[act])))
+    if _none_result(case):
+        return C("CStratActs", d, h, [a for _, a in o])
     return C("CStrat", d, h, o)
 
 
